@@ -333,6 +333,28 @@ def loop_counts(repo: Repo, chk: Check) -> None:
                        "loop ends after that many steps while the streams make the product of all bounds")
     if n_ == 0:
         raise AnalysisError("no kernel loop count derived from stride-pattern bounds found in the alu / phs value generators")
+    # gemmx: M = the output pattern's iterations that move the output (temporal stride != 0), read off that pattern itself; the flags of the streamer
+    # configuration say what the hardware CAN do with a dimension, not what this op's pattern does in it
+    g, gfl = flow_of(repo, chk, GEMMX, "SNAXGEMMXAccelerator._generate_setup_vals")
+    k_ = 0
+    for c in ast.walk(g.node):
+        if not (isinstance(c, ast.Call) and callee_name(c) == "prod" and c.args and isinstance(c.args[0], (ast.GeneratorExp, ast.ListComp))):
+            continue
+        gen = c.args[0].generators[0]
+        if not (gen.ifs and isinstance(gen.iter, ast.Call) and callee_name(gen.iter) == "zip" and len(gen.iter.args) == 2 and isinstance(gen.target, ast.Tuple) and len(gen.target.elts) == 2):
+            continue
+        m1 = norm.match(T("$p.upper_bounds"), gen.iter.args[0])
+        if m1 is None:
+            continue
+        k_ += 1
+        second = gen.iter.args[1]
+        same = norm.match(T("$p.temporal_strides"), second, {"p": m1["p"]}) is not None
+        sv = gen.target.elts[1].id if isinstance(gen.target.elts[1], ast.Name) else None
+        nz = sv is not None and any(norm.any_match([f"{sv}.data != 0", f"{sv} != 0", f"not {sv}.data == 0"], a_) is not None for i_ in gen.ifs for a_ in norm.atoms(i_, True))
+        chk.result(same and nz, "C08.loop-count", f"{g.key}:moving-bounds#{k_}", f"{g.module.relpath}:{c.lineno}",
+                   "the bounds that count are those with a non-zero temporal stride in the same pattern",
+                   f"the bounds of `{ast.unparse(gen.iter.args[0])[:50]}` are selected by `{ast.unparse(second)[:50]}` / `{ast.unparse(gen.ifs[0])[:50]}`, not by the pattern's own temporal "
+                   "strides: a reduction dimension at another position than the streamer's reuse flag gives the wrong M (and K = steps // M)")
 
 
 # --------------------------------------------------------------------------- a flag found in ANY spatial dimension
